@@ -472,9 +472,7 @@ Definition k_dyad (f : string) (a b : val) : string :=
      | VL [VI n] => if negb split_by_segment_size && (n <? zlen (match b with VS s => chars s | _ => members b end)) then "split-even" else ""
      | _ => "" end) else
   if fis f "eval_dyad_join" then
-    (let r := (members a ++ members b)%list in
-     if all_lists_same_len r && negb (forallb (fun x => shape_eqb (npshape x) (npshape (hd VU r))) r) then "join-ragged"
-     else if negb (res_normal (s_dyad f a b)) then "homogenise" else "") else
+    (if negb (res_normal (s_dyad f a b)) then "homogenise" else "") else
   if fis f "eval_dyad_at_index" then (if negb (res_normal (s_dyad f a b)) then "homogenise" else "") else
   if fis f "eval_dyad_match" then "" else
   if fis f "eval_dyad_find" then
